@@ -29,3 +29,11 @@ package multicodec
 //@   assigns[C20] nothing
 //@   ensures[C05,C20] indom(r.decoders, indicator) ==> err == nil && f == r.decoders[indicator]
 //@   ensures[C05] !indom(r.decoders, indicator) ==> err != nil && f == nil
+
+// ---- C20: lookups in a registry (after set-up) write nothing (frame sweep) ----
+// (ensureInit belongs to registration; the List* functions, which build a slice in a loop, are not swept.)
+//@ func (*Registry).ensureInit()
+//@   inline
+//@ func (*Registry).ListEncoders() (l)
+//@ func (*Registry).ListDecoders() (l)
+//@ sweep[C20] assigns nothing: LookupEncoder(), LookupDecoder()
